@@ -19,6 +19,8 @@ func init() {
 }
 
 func checkC09(c *Ctx, r *Report) {
+	checkMirroredCorrection(c, r)
+	checkUPCDigitLoops(c, r) // an upside-down EAN-8 row is not taken for digits: only the L patterns are matched there (also C10)
 	checkSharedStores(c, r, "oned,gozxing", 10) // results and their metadata are not shared between reads (also C18)
 
 	checkResultSites(c, r)
@@ -1191,4 +1193,45 @@ func checkHintForwarding(c *Ctx, r *Report) {
 		}
 	}
 	r.Extra("M-HINTFWD sites", sites)
+}
+
+// M-MIRRORPTS: a mirrored QR symbol's result points are put back in reading order, whatever their number
+func checkMirroredCorrection(c *Ctx, r *Report) {
+	r.Rule("M-MIRRORPTS", "QRCodeDecoderMetaData.ApplyMirroredCorrection, folded on point lists of 0..5 points with the flag set and clear: when the symbol was read mirrored and there are at least three points (three finder patterns, with or without the alignment pattern of versions 2 and up) the bottom-left and top-right points change places and every other point stays; otherwise nothing moves", 1)
+	fd, p := c.funcDeclOf("qrcode/decoder", "QRCodeDecoderMetaData.ApplyMirroredCorrection")
+	key := "qrcode/decoder.QRCodeDecoderMetaData.ApplyMirroredCorrection"
+	if fd == nil {
+		r.AnchorLost("M-MIRRORPTS", key, "method not found")
+		return
+	}
+	r.Analysed(key)
+	recv := recvObj(p, fd)
+	bad := ""
+	for _, mirrored := range []bool{true, false} {
+		for n := 0; n <= 5 && bad == ""; n++ {
+			pts := &Val{K: VList, Local: true}
+			for i := 0; i < n; i++ {
+				pts.L = append(pts.L, vstr(fmt.Sprintf("point %d", i)))
+			}
+			h := &rpf{unroll: 16, env: map[types.Object]*Val{}}
+			if recv != nil {
+				h.env[recv] = &Val{K: VStruct, Ptr: true, Fields: map[string]*Val{"mirrored": vbool(mirrored)}}
+			}
+			if _, err := c.rpfCall(fd, p, []*Val{pts}, h); err != nil {
+				bad = fmt.Sprintf("?%d points, mirrored=%v: %v", n, mirrored, err)
+				break
+			}
+			for i := 0; i < n; i++ {
+				want := i
+				if mirrored && n >= 3 && (i == 0 || i == 2) {
+					want = 2 - i
+				}
+				if len(pts.L) != n || pts.L[i].K != VStr || pts.L[i].S != fmt.Sprintf("point %d", want) {
+					bad = fmt.Sprintf("%d points, mirrored=%v: position %d holds %s afterwards, expected point %d", n, mirrored, i, valString(pts.L[i]), want)
+					break
+				}
+			}
+		}
+	}
+	reportFold(r, c, "M-MIRRORPTS", key, fd.Pos(), bad)
 }
